@@ -35,7 +35,8 @@ static const int NBUILTINS = 10;
 struct Custom { const char *name; int bytes; };
 static const Custom CUSTOMS[] = { {"foo", 12}, {"bar", 0}, {"my \"type\"", 3} };
 static const int NCUSTOMS = 3;
-static const char *FIELDS[] = {"x", "y", "z"};
+// declaration order deliberately not alphabetical: field order must come from the declaration, not from a sorted container
+static const char *FIELDS[] = {"y", "x", "z"};
 static const char *ENUMERATORS[] = {"A", "B", "C"};
 
 typedef std::deque<dtype_t> Pool;      // owns the built dtypes; deque keeps addresses stable
